@@ -81,6 +81,20 @@ def transition_kwargs(spec, t):
     kw = []
     conds = [repr(g["name"]) for g in t["guards"] if g["kind"] == "cond"]
     unl = [repr(g["name"]) for g in t["guards"] if g["kind"] == "unless"]
+    joinable = t.get("join_guards") and len(t["guards"]) >= 2 and len({g["name"] for g in t["guards"]}) == len(t["guards"]) and all(
+        len(spec["guards"][g["name"]]["providers"]) == 1 and not spec["guards"][g["name"]].get("async")
+        and spec["guards"][g["name"]]["providers"][0] in spec["providers"] for g in t["guards"])
+    if joinable:
+        sym = t["i"] % 2 == 1
+        a_, o_, n_ = (" ^ ", " v ", "!") if sym else (" and ", " or ", "not ")
+        names_c = [g["name"] for g in t["guards"] if g["kind"] == "cond"]
+        names_u = [g["name"] for g in t["guards"] if g["kind"] == "unless"]
+        if names_c:
+            expr = a_.join(names_c + [n_ + u for u in names_u])
+            kw.append(f"cond={expr!r}")
+        else:
+            kw.append(f"unless={o_.join(names_u)!r}")
+        conds, unl = [], []
     if conds:
         kw.append(f"cond={_list_expr(conds)}")
     if unl:
